@@ -22,7 +22,8 @@ SNAKE = lambda s: re.sub(r'(?<!^)(?=[A-Z])', '_', s).lower()
 
 def skip_builder_variants():
     """variant names marked #[walrus(skip_builder)] in src/ir/mod.rs (attributes are not part of the HIR)"""
-    src = open('/repo/src/ir/mod.rs').read()
+    import os
+    src = open(os.path.join(os.environ.get('VERIF_REPO', '/repo'), 'src/ir/mod.rs')).read()
     i = src.index('pub enum Instr')
     body = src[i:]
     out = set()
